@@ -99,6 +99,16 @@ class SimpleOperationExecutor:
         else:
             raise ValueError('Not a file comparison name')
 
+    def forget_file_hash(self, filename):
+        """Discard any memoized hash of the specified file.
+
+        ``FileBuilder`` calls this after (re)building the file, because
+        another thread might have hashed the file's old contents after
+        we reserved the file, but before we replaced it.
+        """
+        with self._hash_cache_lock:
+            self._hash_cache.pop(os.path.normcase(filename), None)
+
     def is_cache_file(self, filename):
         """Return whether the specified file is the cache file."""
         return os.path.normcase(filename) == self._norm_cased_cache_filename
